@@ -196,6 +196,12 @@ func genRecords(r *Run, fs framingSpec, max int) ([][]byte, int, bool) {
 		recs = append(recs, rec)
 		total += len(rec) + 60
 	}
+	if fs.JSON && g.Chance("finalnumber", 0.25) {
+		// a bare number is a JSON value too; with no delimiter after it, it is
+		// complete only when the stream ends - so it can only be the last record
+		recs = append(recs, []byte([]string{"42", "-0.5e3", "0", "1700000000123456789"}[g.Int("numberkind", 4)]))
+		total += 80
+	}
 	return recs, total, big
 }
 
@@ -203,7 +209,18 @@ func (d *c11dir) spawn(r *Run, fs framingSpec) {
 	r.Sim.Spawn("a-send-"+d.name, func() {
 		for i := 0; i <= len(d.recs); i++ {
 			if i == d.refuse {
-				bad := append(fill(5, 7, fs.Split), byte(fs.Split), 'x')
+				// the split byte in the middle, at the end, at the start, or alone
+				var bad []byte
+				switch r.Gen.Int("splitpos", 4) {
+				case 0:
+					bad = append(fill(5, 7, fs.Split), byte(fs.Split), 'x')
+				case 1:
+					bad = append(fill(5, 7, fs.Split), byte(fs.Split))
+				case 2:
+					bad = append([]byte{byte(fs.Split)}, fill(5, 7, fs.Split)...)
+				default:
+					bad = []byte{byte(fs.Split)}
+				}
 				before := d.st.Written
 				err := d.chS.Send(bad)
 				if err == nil {
